@@ -22,7 +22,15 @@ class C19(core.Check):
             'deliberate own/partner coincidences, mi scores >= 0 with zeros and positive sum, ~7% calls outside '
             'the domain (num_classes 0, missing / wrongly sized mi_scores, float or out-of-range class targets, '
             'frame without y). A case is non-trivial when the call returns and at least one row differs from '
-            'its input row or has a mixed target; distinct = distinct (inputs, seed) hash')
+            'its input row or has a mixed target; distinct = distinct (inputs, seed) hash. Hardening families: forward '
+            'calls after a history on the ONE model object (constructor configuration != configuration at call time: '
+            'model.mixup / model.beta reassigned, earlier mixup / plain forwards with the same, one more or a single row, '
+            'reset_parameters, train / eval, dropout rates > 0); 0/1 targets in int32 / int16 / uint8 / bool, float64 '
+            'targets or mi scores with float32 features and vice versa; feature values -0.0, +-2^127, 2^-126, 2^24+2 '
+            '(float32-exact) and 0.1, +-1e39, 1.7e308, 5e-324 (float64); unnormalised mi magnitudes 1e-20 .. 1e20; x as a '
+            'strided / transposed / sliced / batch-expanded view; the same call twice; the Beta concentration actually '
+            'used is read from the captured draw; 2% scale cases from the stress ladder (batch up to 65 537, columns, '
+            'channels, classes)')
     partial_notes = (
         'lambda <= 1 holds in the ordered-field theorem; in float32 a mixed class row may sum to 1 within one '
         'ulp - compared with abs/rel 1e-6 (float32) and 1e-9 (float64), stated tolerance, not a finding',
@@ -37,6 +45,8 @@ class C19(core.Check):
 
     # ------------------------------------------------------------------ generation
     def generate(self, rng, n, tier):
+        from harness import stress
+        budget = {0: 1.0e6, 1: 6.0e6, 2: 1.0e7}[self.level]      # volume (tensor cells) the scale cases of one run may take
         for _ in range(n):
             kind = 'forward' if rng.random() < 0.25 else 'fn'
             B = rng.choice([0, 1, 2, 2, 3, 3, 4, 5, 6])
@@ -45,42 +55,128 @@ class C19(core.Check):
             mode = rng.choice(['off', 'feature', 'hidden'])
             C = rng.choice([1, 1, 2, 3, 4])
             dtype = rng.choice(['f32', 'f64'])
+            scale = None
+            oracle_only = False
+            if rng.random() < 0.02:       # one size from the ladder of this stress level
+                scale = rng.choice(['B', 'B', 'B', 'F', 'D', 'C'])
+                if scale == 'B':
+                    B = stress.pick_size(rng, self.level, 4097 if kind == 'forward' else 65537)
+                    if B > 5000:
+                        F, D = rng.randint(1, 2), rng.randint(1, 2) if kind == 'fn' else 2
+                elif scale == 'F':
+                    F = stress.pick_size(rng, self.level, 257 if kind == 'forward' else 4097)
+                    B = rng.randint(1, 6)
+                elif scale == 'D':
+                    D = stress.pick_size(rng, self.level, 256 if kind == 'forward' else 4097)
+                    D += D % 2 if kind == 'forward' else 0
+                    B = rng.randint(1, 6)
+                else:
+                    C = stress.pick_size(rng, self.level, 1025)
+                    B = rng.choice([B, stress.pick_size(rng, 0)])
+                vol = B * F * D * (8 if kind == 'forward' else 1) + B * C
+                if vol > budget:      # budget used up: an ordinary small case instead
+                    scale, B, F, C = None, rng.randint(1, 6), rng.randint(1, 5), rng.choice([1, 2, 3])
+                    D = rng.randint(2, 4)
+                else:
+                    budget -= vol
+                    if B * F * D * (B + F + D) > 5e7:
+                        oracle_only = True
             case = {'kind': kind, 'seed': rng.randrange(1 << 30), 'dtype': dtype, 'B': B, 'F': F, 'D': D, 'C': C,
                     'mode': mode, 'beta': rng.choice(BETAS)}
+            if scale:
+                case['scale'] = scale
+            if scale and oracle_only:
+                case['oracle_only'] = True     # the list model is quadratic in the sizes: judged by the direct oracle alone
             # mutual-information scores
             mi = [rng.choice([0, 0, 1, 2, 3, 5, 8, 13]) / 8 for _ in range(F)]
+            r = rng.random()
+            if r < 0.08:          # unnormalised magnitudes: huge, tiny, far apart
+                mi = [rng.choice([0.0, 1e-20, 3.0, 2.0 ** 24 + 2, 1e20, 0.5]) for _ in range(F)]
             if sum(mi) == 0:
                 mi[rng.randrange(F)] = 1.0
             case['mi'] = mi if (mode == 'feature' or rng.random() < 0.3) else None
+            if case['mi'] is not None and rng.random() < 0.2:
+                case['mi_dtype'] = rng.choice(['f64', 'f32'])       # not necessarily the dtype of x
             # targets
             if C == 1:
-                if rng.random() < 0.25:
+                if rng.random() < 0.3:
                     case['y'] = {'t': 'index', 'v': [rng.randint(0, 1) for _ in range(B)]}
+                    if rng.random() < 0.5:
+                        case['y']['idt'] = rng.choice(['int32', 'uint8', 'bool', 'int16'])   # 0/1 labels held in any integer dtype
                 else:
-                    case['y'] = {'t': 'scalar', 'dtype': dtype, 'v': [_dy(rng, -32, 32) for _ in range(B)]}
+                    ydt = dtype if rng.random() < 0.8 else rng.choice(['f32', 'f64'])
+                    pool = [-1.0, 0.5, -0.0, 1.0, 0.0]
+                    if dtype == 'f64' and ydt == 'f64' and case.get('mi_dtype') != 'f32':
+                        # wide magnitudes only where the whole computation is in double: in float32 the mix of 1e6 and
+                        # 0.5 cancels to ~1e-1 absolute error, which is arithmetic, not a property of the code
+                        pool += [1e5, -65536.0, 0.1, 1.0 / 3.0]      # spread x 2^-53 stays below the 1e-9 comparison
+                    case['y'] = {'t': 'scalar', 'dtype': ydt,
+                                 'v': [(rng.choice(pool) if rng.random() < 0.1 else _dy(rng, -32, 32)) for _ in range(B)]}
             else:
                 case['y'] = {'t': 'index', 'v': [rng.randrange(C) for _ in range(B)]}
             # features
             if kind == 'fn':
                 pool = [_dy(rng) for _ in range(rng.choice([2, 4, 50]))]
-                case['x'] = [[[rng.choice(pool) if rng.random() < 0.3 else _dy(rng) for _ in range(D)]
-                              for _ in range(F)] for _ in range(B)]
+                if rng.random() < 0.2:     # finite edge magnitudes, signed zero, sentinel look-alikes
+                    pool += [-0.0, 0.0, -1.0, 0.5, 2.0 ** 127, -2.0 ** 127, 2.0 ** 24 + 2, 2.0 ** -126]     # exact in float32
+                    if dtype == 'f64':
+                        pool += [0.1, 1e39, -1e39, 1.7e308, 5e-324, 2.0 ** 24 + 1]
+                if B * F * D > 3000:
+                    case['x'] = [[[rng.choice(pool) if rng.random() < 0.3 else float(rng.randint(-512, 512)) / 8
+                                   for _ in range(D)] for _ in range(F)] for _ in range(B)]
+                else:
+                    case['x'] = [[[rng.choice(pool) if rng.random() < 0.3 else _dy(rng) for _ in range(D)]
+                                  for _ in range(F)] for _ in range(B)]
+                if rng.random() < 0.25:
+                    case['xview'] = rng.choice(['strided', 'expanded-batch', 'transposed', 'slice-of-bigger'])
+                    if case['xview'] == 'expanded-batch' and B > 0:     # B views of ONE row: own == partner everywhere
+                        case['x'] = [case['x'][0] for _ in range(B)]
+                if rng.random() < 0.1:
+                    case['again'] = True       # the same call once more (same seed): the function keeps no state
             else:
                 case['feat'] = [[_dy(rng) for _ in range(F)] for _ in range(B)]
                 case['heads'] = 2 if D % 2 == 0 and rng.random() < 0.5 else 1
-                # history: the observed call is the SECOND mixup forward of the same model instance; the first one
-                # saw a frame with other mutual-information scores (per-call wiring must not remember them)
-                case['warm'] = rng.random() < 0.5
+                # history on ONE model object before the observed call; the observed call must follow the
+                # configuration the object has at that moment (attributes are public and may be reassigned)
+                hist = []
+                ctor_mode, ctor_beta = mode, case['beta']
+                r = rng.random()
+                if r < 0.5:
+                    hist.append(['call', True, 'other-mi'])          # an earlier mixup forward with other mi_scores
+                if rng.random() < 0.4:
+                    ctor_mode = rng.choice(['off', 'feature', 'hidden'])
+                    if rng.random() < 0.5:
+                        hist.append(['call', True, rng.choice(['same', 'one-more-row', 'single-row'])])
+                    if rng.random() < 0.3:
+                        hist.append(['set_mixup', rng.choice(['off', 'feature', 'hidden'])])
+                    hist.append(['set_mixup', mode])
+                if rng.random() < 0.3:
+                    ctor_beta = rng.choice(BETAS)
+                    hist.append(['set_beta', case['beta']])
+                for _ in range(rng.choice([0, 0, 0, 1, 2])):
+                    hist.append(rng.choice([['reset'], ['train'], ['eval'], ['call', False, 'same'],
+                                            ['call', True, 'single-row'], ['call', True, 'one-more-row']]))
+                if scale == 'B' and rng.random() < 0.5:
+                    hist = [h for h in hist if h[0] != 'call']
+                case['hist'] = hist
+                case['ctor'] = {'mode': ctor_mode, 'beta': ctor_beta}
+                if rng.random() < 0.25:     # dropout rates off the default; mixup sits before every dropout
+                    case['dropout'] = [rng.choice([0.0, 0.1, 0.5]) for _ in range(3)]
             # a minority of calls outside the domain
             r = rng.random()
-            if r < 0.07:
+            if r < 0.07 and not scale:
                 what = rng.choice(['C0', 'nomi', 'milen', 'yfloat', 'yrange', 'noy'])
                 if what == 'C0' and kind == 'fn':
                     case['C'] = 0
                 elif what == 'nomi':
                     case['mode'], case['mi'] = 'feature', None
+                    case.pop('mi_dtype', None)
+                    if kind == 'forward':
+                        case['hist'] = [h for h in case['hist'] if h[0] != 'set_mixup'] + [['set_mixup', 'feature']]
                 elif what == 'milen' and F >= 2:
                     case['mode'], case['mi'] = 'feature', mi + [1.0]
+                    if kind == 'forward':
+                        case['hist'] = [h for h in case['hist'] if h[0] != 'set_mixup'] + [['set_mixup', 'feature']]
                 elif what == 'yfloat' and C > 1 and B > 0:
                     case['y'] = {'t': 'scalar', 'dtype': dtype, 'v': [_dy(rng) for _ in range(B)]}
                 elif what == 'yrange' and C > 1 and B > 0:
@@ -99,19 +195,26 @@ class C19(core.Check):
         torch.manual_seed(case['seed'])
         rec = {}
         y = mixup.target_tensor(case['y'])
-        mi = None if case['mi'] is None else torch.tensor(case['mi'], dtype=dt)
+        mi = None if case['mi'] is None else torch.tensor(case['mi'], dtype=mixup.torch_dtype(case.get('mi_dtype', case['dtype'])))
         mode = mixup.MODES[case['mode']]
         case.pop('draws', None)
         case.pop('x_encoded', None)
         try:
             if case['kind'] == 'fn':
-                x = torch.tensor(case['x'], dtype=dt).reshape(case['B'], case['F'], case['D'])
-                x0 = x.clone()
+                x = mixup.make_view(torch.tensor(case['x'], dtype=dt).reshape(case['B'], case['F'], case['D']),
+                                    case.get('xview'))
+                x0, y0, mi0 = x.clone(), y.clone(), (None if mi is None else mi.clone())
                 with mixup.capture_draws(rec):
                     xo, yo = ex.feature_mixup(x, y, num_classes=case['C'], beta=case['beta'], mixup_type=mode,
                                               mi_scores=mi)
-                if not torch.equal(torch.nan_to_num(x), torch.nan_to_num(x0)):
+                if not (mixup.same_bits(x, x0) and mixup.same_bits(y, y0) and (mi is None or mixup.same_bits(mi, mi0))):
                     return {'error': 'input modified'}
+                if case.get('again'):
+                    torch.manual_seed(case['seed'])
+                    xo2, yo2 = ex.feature_mixup(x, y, num_classes=case['C'], beta=case['beta'], mixup_type=mode,
+                                                mi_scores=mi)
+                    if not (mixup.same_bits(xo, xo2) and mixup.same_bits(yo, yo2)):
+                        return {'error': 'second identical call differs'}
             else:
                 xo, yo, xin = self._forward(case, rec, dt, y, mi, mode)
                 case['x_encoded'] = mixup.nest(xin, mixup.fbits)
@@ -137,9 +240,12 @@ class C19(core.Check):
             tf.mi_scores = mi
         col_stats = {n: {StatType.MEAN: 0.25 * j, StatType.STD: 1.0 + 0.5 * j,
                          StatType.QUANTILES: [-8.0, -2.0, 0.0, 2.0, 8.0]} for j, n in enumerate(names)}
+        ctor = case.get('ctor') or {'mode': case['mode'], 'beta': case['beta']}
+        dp = case.get('dropout') or [0.0, 0.0, 0.0]
         model = ExcelFormer(in_channels=D, out_channels=case['C'], num_cols=F, num_layers=1,
                             num_heads=case['heads'], col_stats=col_stats, col_names_dict=tf.col_names_dict,
-                            mixup=mode, beta=case['beta'])
+                            diam_dropout=dp[0], aium_dropout=dp[1], residual_dropout=dp[2],
+                            mixup=mixup.MODES[ctor['mode']], beta=ctor['beta'])
         model = model.to(dt)
         model.eval()
         seen = {}
@@ -147,14 +253,34 @@ class C19(core.Check):
             lambda m, a, out: seen.__setitem__('enc', out[0].detach().clone()))
         h2 = model.excelformer_convs[0].register_forward_pre_hook(
             lambda m, a: seen.__setitem__('conv_in', a[0].detach().clone()))
-        if case.get('warm') and B > 0 and y is not None:
-            tf0 = torch_frame.TensorFrame({stype.numerical: feat.flip(0) + 1.0}, {stype.numerical: names}, y=y)
-            tf0.mi_scores = torch.tensor([float((3 * j) % 5 + 1) for j in range(F)], dtype=dt)
-            try:
-                with torch.no_grad():
-                    model(tf0, mixup_encoded=True)
-            except Exception:   # noqa  (an out-of-domain target fails here exactly as in the observed call)
-                pass
+        hist = case.get('hist')
+        if hist is None:
+            hist = [['call', True, 'other-mi']] if case.get('warm') else []
+        for op in hist:
+            if op[0] == 'set_mixup':
+                model.mixup = mixup.MODES[op[1]]
+            elif op[0] == 'set_beta':
+                model.beta = op[1]
+            elif op[0] == 'reset':
+                model.reset_parameters()
+            elif op[0] == 'train':
+                model.train()
+            elif op[0] == 'eval':
+                model.eval()
+            elif op[0] == 'call' and B > 0 and y is not None:
+                f0, y0 = feat.flip(0) + 1.0, y
+                if op[2] == 'one-more-row':
+                    f0, y0 = torch.cat([f0, f0[:1]]), torch.cat([y, y[:1]])
+                elif op[2] == 'single-row':
+                    f0, y0 = f0[:1], y[:1]
+                tf0 = torch_frame.TensorFrame({stype.numerical: f0}, {stype.numerical: names}, y=y0)
+                if op[2] == 'other-mi' or mi is not None:
+                    tf0.mi_scores = torch.tensor([float((3 * j) % 5 + 1) for j in range(F)], dtype=dt)
+                try:
+                    with torch.no_grad():
+                        model(tf0, mixup_encoded=op[1])
+                except Exception:   # noqa  (an out-of-domain target fails here exactly as in the observed call)
+                    pass
         try:
             with torch.no_grad(), mixup.capture_draws(rec):
                 out, yo = model(tf, mixup_encoded=True)
@@ -166,6 +292,8 @@ class C19(core.Check):
 
     # ------------------------------------------------------------------ the model
     def model_requests(self, case):
+        if case.get('oracle_only'):
+            return []
         dr = case.get('draws') or {'rates': [], 'perm': [], 'u': []}
         y = case['y']
         yj = None
@@ -183,6 +311,8 @@ class C19(core.Check):
                  'B': case['B'], 'F': case['F'], 'D': case['D'], 'x': x, 'y': yj}]
 
     def model_outcome(self, case, replies):
+        if case.get('oracle_only'):
+            return core.SKIP_MODEL
         r = replies[0]
         if r == 'raises':
             return r
@@ -196,6 +326,8 @@ class C19(core.Check):
 
     @staticmethod
     def _tol(case):
+        if case['mode'] == 'feature' and case.get('mi_dtype') == 'f32':
+            return 1e-6          # lambda is computed from the float32 mutual-information scores
         return 1e-9 if case['dtype'] == 'f64' else 1e-6
 
     def equal(self, real, model):
@@ -230,7 +362,7 @@ class C19(core.Check):
         if exp_raise:
             return None      # the property says nothing about calls outside its domain
         if 'error' in real:
-            return core.Violation(f"{case['kind']}/input-modified", 'feature_mixup modified its input tensor', case)
+            return core.Violation(f"{case['kind']}/{real['error'].replace(' ', '-')}", f"feature_mixup: {real['error']}", case)
         B, F, D, C = case['B'], case['F'], case['D'], case['C']
         if real['shape'] != [B, F, D]:
             return core.Violation(f"{case['kind']}/shape", 'mixed features have a different shape', case,
@@ -248,7 +380,7 @@ class C19(core.Check):
             if 'mat' not in y or len(y['mat']) != B or any(len(r) != C for r in y['mat']):
                 return core.Violation(f"{case['kind']}/target-shape", 'class target must come back as [B, C]', case)
             yo = y['mat']
-        bad = mixup.explain_rows(case, x, xo, yo, self._tol(case))
+        bad = mixup.explain_rows(case, x, xo, yo, self._tol(case), hint=(case.get('draws') or {}).get('perm'))
         if bad is not None:
             i, why = bad
             return core.Violation(f"{case['kind']}/{case['mode']}/no-single-partner",
@@ -264,6 +396,11 @@ class C19(core.Check):
             return core.Violation(f"{case['kind']}/perm", 'randperm did not return a permutation', case)
         if any(not (0.0 <= core.bits_float(r) <= 1.0) for r in dr.get('rates', [])):
             return core.Violation(f"{case['kind']}/beta", 'Beta sample outside [0,1]', case)
+        conc = dr.get('conc')
+        if conc is not None and abs(conc - case['beta']) > 1e-6 * (1 + abs(case['beta'])):
+            return core.Violation(f"{case['kind']}/beta-parameter", 'the shuffle rates were drawn from a Beta distribution '
+                                  'with another concentration than the beta the call / the model is configured with', case,
+                                  case['beta'], conc)
         return None
 
     def nontrivial_key(self, case, real):
@@ -272,9 +409,43 @@ class C19(core.Check):
         return core.stable_hash({k: v for k, v in case.items() if k not in ('draws', 'x_encoded')})
 
     def classify(self, case, real):
-        labs = [f"kind:{case['kind']}", f"mode:{case['mode']}", f"B:{case['B']}", f"F:{case['F']}", f"D:{case['D']}",
-                f"C:{case['C']}", f"dtype:{case['dtype']}", f"target:{case['y']['t'] if case['y'] else 'none'}",
+        labs = [f"kind:{case['kind']}", f"mode:{case['mode']}", f"B:{min(case['B'], 7)}", f"F:{min(case['F'], 6)}",
+                f"D:{min(case['D'], 5)}", f"C:{min(case['C'], 5)}", f"dtype:{case['dtype']}",
+                f"target:{case['y']['t'] if case['y'] else 'none'}",
                 'outcome:raises' if real == 'raises' else 'outcome:ok']
+        for what, v in (('batch', case['B']), ('columns', case['F']), ('channels', case['D']), ('classes', case['C'])):
+            for th in (65537, 16385, 4097, 1025, 257, 17):
+                if v >= th:
+                    labs.append(f'scale:{what}:{th}+')
+                    break
+        if case.get('oracle_only'):
+            labs.append('oracle-only')
+        if case['y'] and case['y'].get('idt'):
+            labs.append(f"dtype:target:{case['y']['idt']}")
+        if case['y'] and case['y']['t'] == 'scalar' and case['y'].get('dtype') != case['dtype']:
+            labs.append(f"dtype:target:{case['y'].get('dtype')}-with-{case['dtype']}-features")
+        if case.get('mi_dtype') and case['mi_dtype'] != case['dtype']:
+            labs.append(f"dtype:mi:{case['mi_dtype']}-with-{case['dtype']}-features")
+        if case.get('xview'):
+            labs.append(f"alias:x-is-a-view:{case['xview']}")
+        if case.get('again'):
+            labs.append('history:same-call-twice')
+        if case['mi'] and max(case['mi']) > 100:
+            labs.append('value:mi-unnormalised-magnitudes')
+        if case['kind'] == 'fn' and any(v in (2.0 ** 127, -2.0 ** 127, 1e39, 1.7e308, 5e-324) or (v == 0 and math.copysign(1, v) < 0)
+                                        for row in case['x'][:50] for col in row[:50] for v in col[:50]):
+            labs.append('value:edge-magnitude-or-signed-zero')
+        if case['kind'] == 'forward':
+            hist = case.get('hist') or []
+            ctor = case.get('ctor') or {}
+            if ctor.get('mode', case['mode']) != case['mode']:
+                labs.append(f"history:mixup-reassigned:{ctor['mode']}->{case['mode']}")
+            if ctor.get('beta', case['beta']) != case['beta']:
+                labs.append('history:beta-reassigned')
+            for op in hist:
+                labs.append('history:' + (op[0] if op[0] != 'call' else f"call:{'mixup' if op[1] else 'plain'}:{op[2]}"))
+            if case.get('dropout') and any(case['dropout']):
+                labs.append('config:dropout>0' + (':train' if any(h[0] == 'train' for h in hist) else ''))
         if real != 'raises' and 'error' not in real and case['B'] > 0 and case['mode'] != 'off':
             x = case['x'] if case['kind'] == 'fn' else \
                 [[[core.bits_float(v) for v in col] for col in row] for row in case['x_encoded']]
